@@ -191,8 +191,8 @@ fn c20(args: &Args) -> i32 {
         check_name: "C20",
         level: "exploration",
         engine: "SCHED",
-        rule: format!("scenarios of 2-3 simulated threads x 1-3 operations on shared entities (LpgStore node/edge/label/property/index/statistics operations; RdfStore insert/remove/find of the same triple; TransactionManager begin/write/commit/gc; BufferManager grants against a budget that cannot fit them all; Catalog get_or_create / create_index / drop_index; QueryCache put/get/invalidate/clear at capacity 2; WalManager log/sync/rotate on one directory with rotation every 1-3 records), each explored under {n_sched} schedules (random, PCT depth 2 and 3) with every parking_lot acquire and release a scheduling point; non-trivial = at least two threads mutate; distinct = distinct scenarios (schedules are counted separately as distinct_interleavings)"),
-        real: vec!["LpgStore", "RdfStore", "TransactionManager", "ChunkedAdjacency", "PropertyStorage", "BufferManager/MemoryGrant", "Catalog", "QueryCache", "WalManager (real files on tmpfs through the file seam)", "parking_lot lock state (try paths)"],
+        rule: format!("scenarios of 2-3 simulated threads x 1-3 operations on shared entities (LpgStore node/edge/label/property/index/statistics operations; RdfStore insert/remove/find of the same triple; TransactionManager begin/write/commit/gc; BufferManager grants against a budget that cannot fit them all; Catalog get_or_create / create_index / drop_index; QueryCache put/get/invalidate/clear at capacity 2; WalManager log/sync/rotate on one directory with rotation every 1-3 records; one GrafeoDB with one Session per thread: direct-API and session node/edge creation, auto-commit INSERT and SET statements, whole transactions begin+INSERT(+INSERT)+commit or +rollback, count queries), each explored under {n_sched} schedules (random, PCT depth 2 and 3) with every parking_lot acquire and release a scheduling point; non-trivial = at least two threads mutate; distinct = distinct scenarios (schedules are counted separately as distinct_interleavings)"),
+        real: vec!["LpgStore", "RdfStore", "TransactionManager", "ChunkedAdjacency", "PropertyStorage", "BufferManager/MemoryGrant", "Catalog", "QueryCache", "WalManager (real files on tmpfs through the file seam)", "GrafeoDB + Session query path (db family)", "parking_lot lock state (try paths)"],
         stub: vec!["parking_lot blocking paths (replaced by the simulator's wait queue)", "OS threads (shuttle coroutines on one OS thread)"],
         assumptions: vec![
             "interleavings are explored at the granularity of lock acquire/release (the quantifier's 'critical sections inside each operation'); plain memory accesses between two lock operations are atomic in the simulation".into(),
@@ -205,7 +205,7 @@ fn c20(args: &Args) -> i32 {
     drive(
         batch,
         &|seed, i| {
-            let fam = match i % 10 {
+            let fam = match i % 11 {
                 0 => eng_sched::Family::LpgCore,
                 1 | 2 => eng_sched::Family::Lpg,
                 3 => eng_sched::Family::Rdf,
@@ -213,6 +213,7 @@ fn c20(args: &Args) -> i32 {
                 5 | 6 => eng_sched::Family::Buffer,
                 7 => eng_sched::Family::Catalog,
                 8 => eng_sched::Family::Cache,
+                9 => eng_sched::Family::Db,
                 _ => eng_sched::Family::Wal,
             };
             // development aid (timing one family); never set by the registered commands
@@ -225,9 +226,12 @@ fn c20(args: &Args) -> i32 {
                 Ok("catalog") => eng_sched::Family::Catalog,
                 Ok("cache") => eng_sched::Family::Cache,
                 Ok("wal") => eng_sched::Family::Wal,
+                Ok("db") => eng_sched::Family::Db,
                 _ => fam,
             };
-            eng_sched::run_one(seed, fam, "C20", n_sched)
+            // a db-family execution builds a database and runs whole statements: fewer schedules
+            let n = if fam == eng_sched::Family::Db { n_sched / 4 } else { n_sched };
+            eng_sched::run_one(seed, fam, "C20", n)
         },
         Some(&eng_sched::minimise),
         &mut |_| {},
